@@ -16,4 +16,6 @@ PROPERTY = {
 
 
 def check(run):
+    from checks.main import reflection_bounded
+    reflection_bounded(run)
     run.verify_functions(RECOGNIZER + LOADER + STRIP + CONSTR)
